@@ -257,6 +257,11 @@ def run_property(prop, tier, only=None, seed=0, write_evidence=True, quiet=False
                     elif annot_broken:
                         undecided.append(ob['name'] + " (a loop annotation of this case no longer verifies and no failing input of the "
                                          "real code was found: the proof has to be re-annotated)")
+                    elif r.get('stand_in'):
+                        # the case names a bounded stand-in that runs the real code on the same clause: a counter-model that does
+                        # not replay is an imprecision of the proof (or a defect outside the stand-in's bound) - undecided, and the
+                        # stand-in's verdict on the real code is what is reported
+                        undecided.append(ob['name'] + " (counter-model does not replay on the real code; see the bounded stand-in %s)" % r['stand_in'])
                     elif ob['name'] in base_proved:
                         fn = write_replay(ob, ob['refuted'][0], 'refuted-without-native-witness')
                         violations.append((ob['name'], fn, ' no-failing-input-found'))
